@@ -1718,6 +1718,40 @@ class Checker:
                 ctx.ok("R1", c, "labels leave %s with the same values in the same order (to_numpy / check_y only)" % fname,
                        self.ctx.loc(mod, fn))
 
+    def empty_selection(self, cls):
+        """R2 conformance: `_iter(replace_strings=True)` skips a member when `_is_empty_column_selection(column)`; the average
+        then runs over the remaining members.  A Boolean mask is empty iff *no* entry is True."""
+        ctx = self.ctx
+        rel = "sktime/classification/compose/_column_ensemble.py"
+        mod = self.repo.module(rel)
+        fn = self.repo.func(rel, "_is_empty_column_selection")
+        par = astq.param_names(fn)[0]
+        c = "_is_empty_column_selection:mask"
+        verdict, shown = None, None
+        for r in astq.returns(fn):
+            v = r.value
+            inner, neg = v, False
+            while isinstance(inner, ast.UnaryOp) and isinstance(inner.op, (ast.Not, ast.Invert)):
+                inner, neg = inner.operand, not neg
+            red = None
+            if isinstance(inner, ast.Call) and isinstance(inner.func, ast.Attribute) and isinstance(inner.func.value, ast.Name) \
+                    and inner.func.value.id == par and inner.func.attr in ("any", "all") and not inner.args:
+                red = inner.func.attr
+            elif isinstance(inner, ast.Call) and dotted(inner.func) in ("np.any", "np.all", "any", "all") and len(inner.args) == 1 \
+                    and isinstance(inner.args[0], ast.Name) and inner.args[0].id == par:
+                red = dotted(inner.func).split(".")[-1]
+            if red is None:
+                continue
+            shown = astq.canon(v)
+            verdict = (red == "any" and neg)
+        if verdict is None:
+            ctx.undecided("R2", c, "mask branch of _is_empty_column_selection not interpretable", self.ctx.loc(mod, fn))
+        else:
+            ctx.check(verdict, "R2", c, "a Boolean mask is empty iff not mask.any()",
+                      "a Boolean mask counts as empty when `%s`: a member whose mask selects some but not all columns is skipped by "
+                      "_iter(replace_strings=True) and silently left out of the averaged probabilities" % shown, self.ctx.loc(mod, fn),
+                      witness={"configuration": "estimators=[('a', clf, np.array([True, False]))]"})
+
     def replace_estimator_order(self, cls):
         """R2 conformance: the column ensemble's `_estimators` setter zips the new (name, estimator) pairs with the old column
         specifications *by position*; the set_params step replacement must therefore replace in place, not re-order."""
@@ -2018,6 +2052,7 @@ def run(ctx):
         ck.r2_column_count(cls)
         ck.r3(cls)
     ck.label_validators()
+    ck.empty_selection(base)
     ck.r3(base, methods=("predict",))
     reg = repo.cls(REGRESSOR[0] + ":" + REGRESSOR[1])
     ck.r2_forest(reg, method="predict", member_method="predict")
@@ -2025,5 +2060,5 @@ def run(ctx):
     rb = repo.cls("sktime/regression/base.py:BaseRegressor")
     ck.score(rb, rb, repo.func("sktime/regression/base.py", "BaseRegressor.score"), "r2")
     ctx.floor("R1", 50)
-    ctx.floor("R2", 85)
+    ctx.floor("R2", 86)
     ctx.floor("R3", 44)
